@@ -28,7 +28,7 @@ static void setup(void) {
     if (V) return;
     memset(sigs, 0, sizeof sigs);
     for (i = 0; i < 8; i++) { sigs[i].nsteps = 1; sigs[i].steps[0].kind = kinds[i]; sigs[i].steps[0].mandatory = 1; sigs[i].steps[0].cap = 30; }
-    V = vh_ctx_new(cmds, 400, 8, 128); V->sigs = sigs; V->nsigs = 8; V->log_enabled = 0;
+    V = vh_ctx_new(cmds, 1200, 8, 128); V->sigs = sigs; V->nsigs = 8; V->log_enabled = 0;
     if (vh_args.out_path) { char p[1024]; snprintf(p, sizeof p, "%s.records", vh_args.out_path); rec = fopen(p, "w"); }
 }
 static void record(const char * kind, const char * lit, size_t n, const char * extra, uint64_t bits) {
@@ -61,14 +61,18 @@ static const vh_stepres_t * decode(int cmd, const char * lit, size_t n, const ch
 }
 
 /* ---- decimal literals ----------------------------------------------------------------------------------- */
-typedef struct { char text[96]; size_t n; char stripped[96]; int has_ws, is_integer; const char * cls; } lit_t;
+typedef struct { char text[720]; size_t n; char stripped[720]; int has_ws, is_integer; const char * cls; } lit_t;
 
 static void gen_decimal(vh_rng_t * rng, lit_t * l, int want_integer) {
-    size_t k = 0, s = 0; int nd = 1 + (int) vh_below(rng, vh_chance(rng, 1, 3) ? 25 : 8), i, point, hasexp;
+    size_t k = 0, s = 0; int nd = 1 + (int) vh_below(rng, vh_chance(rng, 1, 3) ? 25 : 8), i, point, hasexp, zeros = 0;
+    /* the statement bounds no literal's length: a share of the literals is spelled with 26..600 digits (zero padded in front,
+     * or all digits random), around the sizes a decoder's conversion buffer may have */
+    if (vh_chance(rng, 1, 12)) { static const int ls[] = { 26, 40, 58, 60, 62, 63, 64, 65, 66, 100, 127, 128, 129, 255, 256, 257, 600 }; int L = ls[vh_below(rng, sizeof ls / sizeof ls[0])]; if (vh_chance(rng, 1, 2)) zeros = L - nd; else nd = L; }
     l->has_ws = 0; l->is_integer = 0;
     switch (vh_below(rng, 4)) { case 0: l->text[k++] = '+'; break; case 1: l->text[k++] = '-'; break; default: break; }
     point = want_integer ? -1 : (int) vh_below(rng, (uint32_t) nd + 3) - 1; /* -1: none; 0: leading '.'; nd: trailing '.' */
     if (point > nd) point = -1;
+    while (zeros-- > 0) l->text[k++] = '0';
     for (i = 0; i < nd; i++) { if (i == point) l->text[k++] = '.'; l->text[k++] = (char) ('0' + vh_below(rng, 10)); }
     if (point == nd) l->text[k++] = '.';
     hasexp = !want_integer && vh_chance(rng, 1, 2);
@@ -84,23 +88,34 @@ static void gen_decimal(vh_rng_t * rng, lit_t * l, int want_integer) {
     for (i = 0; i < (int) k; i++) if (l->text[i] != ' ' && l->text[i] != '\t') l->stripped[s++] = l->text[i];
     l->stripped[s] = 0;
     l->is_integer = (point < 0 && !hasexp);
+    if (s >= 64) vh_count(l->has_ws ? "fp.literal_of_64_or_more_characters_with_white_space" : "fp.literal_of_64_or_more_characters", 1);
     l->cls = l->has_ws ? "white-space-inside-number" : (hasexp ? "with-exponent" : (point == 0 ? "leading-point" : (point == nd ? "trailing-point" : (l->is_integer ? "integer" : "fraction"))));
 }
 
+/* recorded finding: a literal with white space around the exponent mark AND 64 or more other characters is decoded up to the white space only */
+static int long_ws_finding(const lit_t * l, double got) {
+    if (!l->has_ws || strlen(l->stripped) < 64) return 0;
+    if (got != strtod(l->text, NULL)) return 0; /* strtod stops at the blank: the mantissa alone */
+    vh_violation("C04:long-literal-with-exponent-white-space-decoded-as-mantissa", "\"%s\" (%zu characters without the blanks) decodes to %a, its mantissa alone", vh_esc(l->text, l->n), strlen(l->stripped), got);
+    return 1;
+}
 static void check_fp(const lit_t * l, int sample) {
     const vh_stepres_t * s; char key[128]; double want = strtod(l->stripped, NULL); float wantf = strtof(l->stripped, NULL); uint64_t b; uint32_t fb;
     if ((s = decode(CMD_D, l->text, l->n, l->cls))) {
-        if (memcmp(&s->d, &want, 8) != 0) { snprintf(key, sizeof key, "C04:double-value:%s", l->cls); vh_violation(key, "ParamDouble(\"%s\") = %a, the literal denotes %a", vh_esc(l->text, l->n), s->d, want); }
+        if (memcmp(&s->d, &want, 8) != 0 && long_ws_finding(l, s->d)) { }
+        else if (memcmp(&s->d, &want, 8) != 0) { snprintf(key, sizeof key, "C04:double-value:%s", l->cls); vh_violation(key, "ParamDouble(\"%s\") = %a, the literal denotes %a", vh_esc(l->text, l->n), s->d, want); }
         else vh_count("fp.double_ok", 1);
         if (sample) { memcpy(&b, &s->d, 8); record("D", l->text, l->n, "-", b); }
     }
     if ((s = decode(CMD_F, l->text, l->n, l->cls))) {
-        if (memcmp(&s->f, &wantf, 4) != 0) { snprintf(key, sizeof key, "C04:float-value:%s", l->cls); vh_violation(key, "ParamFloat(\"%s\") = %a, the literal denotes %a", vh_esc(l->text, l->n), (double) s->f, (double) wantf); }
+        if (memcmp(&s->f, &wantf, 4) != 0 && s->f == strtof(l->text, NULL) && long_ws_finding(l, strtod(l->text, NULL))) { }
+        else if (memcmp(&s->f, &wantf, 4) != 0) { snprintf(key, sizeof key, "C04:float-value:%s", l->cls); vh_violation(key, "ParamFloat(\"%s\") = %a, the literal denotes %a", vh_esc(l->text, l->n), (double) s->f, (double) wantf); }
         else vh_count("fp.float_ok", 1);
         if (sample) { memcpy(&fb, &s->f, 4); record("F", l->text, l->n, "-", fb); }
     }
     if ((s = decode(CMD_N, l->text, l->n, l->cls))) {
-        if (s->special || s->unit != SCPI_UNIT_NONE || memcmp(&s->d, &want, 8) != 0) { snprintf(key, sizeof key, "C04:number-value:%s", l->cls); vh_violation(key, "ParamNumber(\"%s\") = special %d unit %d value %a, the literal denotes %a", vh_esc(l->text, l->n), s->special, s->unit, s->d, want); }
+        if (!s->special && s->unit == SCPI_UNIT_NONE && memcmp(&s->d, &want, 8) != 0 && long_ws_finding(l, s->d)) { }
+        else if (s->special || s->unit != SCPI_UNIT_NONE || memcmp(&s->d, &want, 8) != 0) { snprintf(key, sizeof key, "C04:number-value:%s", l->cls); vh_violation(key, "ParamNumber(\"%s\") = special %d unit %d value %a, the literal denotes %a", vh_esc(l->text, l->n), s->special, s->unit, s->d, want); }
         else vh_count("fp.number_ok", 1);
     }
     if (l->has_ws) vh_count("fp.literal_with_white_space", 1);
